@@ -14,7 +14,7 @@ Lemma gc_path_ok : gc_path =
 Proof. reflexivity. Qed.
 
 Lemma skel_SaveGCSafePoint_ok : skel_SaveGCSafePoint =
-  [Call "Join"; Call "FormatUint"; Call "Save"; Ret].
+  [Call "Save"; Ret].
 Proof. reflexivity. Qed.
 
 Lemma skel_LoadGCSafePoint_ok : skel_LoadGCSafePoint =
@@ -46,11 +46,19 @@ Lemma skel_GetGCSafePoint_ok : skel_GetGCSafePoint =
 Proof. reflexivity. Qed.
 
 Lemma skel_UpdateGCSafePoint_ok : skel_UpdateGCSafePoint =
-  [IfE "!v0.isLocalRequest(v3)" [Assign "v4" ":= v0.getDelegateClient(v1, v3)"; Assign "v5" ":= v0.getDelegateClient(v1, v3)"; IfE "v5 != nil" [Ret] []; Assign "v1" "= grpcutil.ResetForwardContext(v1)"; Ret] []; Call "validateRequest"; Assign "v5" ":= v0.validateRequest(v2.GetHeader())"; IfE "v5 != nil" [Ret] []; Call "GetRaftCluster"; IfE "v6 == nil" [Ret] []; Lock "v0.gcSafePointLock"; DeferUnlock "v0.gcSafePointLock"; Call "LoadGCSafePoint"; Assign "v5" ":= v0.storage.LoadGCSafePoint()"; IfE "v5 != nil" [Ret] []; Assign "v8" ":= v2.SafePoint"; IfE "v8 > v7" [Call "SaveGCSafePoint"; Assign "v5" ":= v0.storage.SaveGCSafePoint(v8)"; IfE "v5 != nil" [Ret] []] [IfE "v8 < v7" [Assign "v8" "= v7"] []]; Ret].
+  [IfE "!v0.isLocalRequest(v3)" [Assign "v4" ":= v0.getDelegateClient(v1, v3)"; Assign "v5" ":= v0.getDelegateClient(v1, v3)"; IfE "v5 != nil" [Ret] []; Assign "v1" "= grpcutil.ResetForwardContext(v1)"; Ret] []; Call "validateRequest"; Assign "v5" ":= v0.validateRequest(v2.GetHeader())"; IfE "v5 != nil" [Ret] []; Call "GetRaftCluster"; IfE "v6 == nil" [Ret] []; Lock "v0.gcSafePointLock"; DeferUnlock "v0.gcSafePointLock"; Call "LoadGCSafePoint"; Assign "v5" ":= v0.storage.LoadGCSafePoint()"; IfE "v5 != nil" [Ret] []; Assign "v8" ":= v2.SafePoint"; IfE "v8 > v7" [Call "saveGCSafePointAsLeader"; Assign "v5" ":= v0.saveGCSafePointAsLeader(v7, v8)"; IfE "v5 != nil" [Ret] []] [IfE "v8 < v7" [Assign "v8" "= v7"] []]; Ret].
 Proof. reflexivity. Qed.
 
 Lemma skel_UpdateServiceGCSafePoint_ok : skel_UpdateServiceGCSafePoint =
   [Lock "v0.serviceSafePointLock"; DeferUnlock "v0.serviceSafePointLock"; IfE "!v0.isLocalRequest(v3)" [Assign "v4" ":= v0.getDelegateClient(v1, v3)"; Assign "v5" ":= v0.getDelegateClient(v1, v3)"; IfE "v5 != nil" [Ret] []; Assign "v1" "= grpcutil.ResetForwardContext(v1)"; Ret] []; Call "validateRequest"; Assign "v5" ":= v0.validateRequest(v2.GetHeader())"; IfE "v5 != nil" [Ret] []; Call "GetRaftCluster"; IfE "v6 == nil" [Ret] []; IfE "v2.TTL <= 0" [Call "RemoveServiceGCSafePoint"; Assign "v5" ":= v0.storage.RemoveServiceGCSafePoint(string(v2.ServiceId))"; IfE "v5 != nil" [Ret] []] []; Call "HandleTSORequest"; Assign "v5" ":= v0.tsoAllocatorManager.HandleTSORequest(tso.GlobalDCLocation, 1)"; IfE "v5 != nil" [Ret] []; Call "LoadMinServiceGCSafePoint"; Assign "v9" ":= v0.storage.LoadMinServiceGCSafePoint(v8)"; Assign "v5" ":= v0.storage.LoadMinServiceGCSafePoint(v8)"; IfE "v5 != nil" [Ret] []; IfE "v2.TTL > 0 && v2.SafePoint >= v9.SafePoint" [Assign "v10" ":= &core.ServiceSafePoint{ ServiceID: string(v2.ServiceId), ExpiredAt: v8.Unix() + v2.TTL, SafePoint: v2.SafePoint, }"; IfE "math.MaxInt64-v8.Unix() <= v2.TTL" [Assign "v10.ExpiredAt" "= math.MaxInt64"] []; Call "SaveServiceGCSafePoint"; Assign "v5" ":= v0.storage.SaveServiceGCSafePoint(v10)"; IfE "v5 != nil" [Ret] []; IfE "string(v2.ServiceId) == v9.ServiceID" [Call "LoadMinServiceGCSafePoint"; Assign "v9" "= v0.storage.LoadMinServiceGCSafePoint(v8)"; Assign "v5" "= v0.storage.LoadMinServiceGCSafePoint(v8)"; IfE "v5 != nil" [Ret] []] []] []; Ret].
+Proof. reflexivity. Qed.
+
+Lemma skel_saveGCSafePointAsLeader_ok : skel_saveGCSafePointAsLeader =
+  [Call "Compare"; Assign "v4" ":= clientv3.Compare(clientv3.CreateRevision(v3), ""="", 0)"; IfE "v1 != 0" [Call "Compare"; Assign "v4" "= clientv3.Compare(clientv3.Value(v3), ""="", core.EncodeGCSafePoint(v1))"] []; Call "GetLeadership"; Call "LeaderTxn"; Call "OpPut"; Call "Then"; Call "Commit"; IfE "v6 != nil" [Ret] []; IfE "!v5.Succeeded" [Ret] []; Ret].
+Proof. reflexivity. Qed.
+
+Lemma gc_save_cmps_ok : gc_save_cmps =
+  ["clientv3.CreateRevision(v3) = 0"; "clientv3.Value(v3) = core.EncodeGCSafePoint(v1)"].
 Proof. reflexivity. Qed.
 
 Lemma skel_api_List_ok : skel_api_List =
@@ -62,7 +70,7 @@ Lemma skel_api_Delete_ok : skel_api_Delete =
 Proof. reflexivity. Qed.
 
 Lemma save_gc_sites_ok : save_gc_sites =
-  ["server/grpc_service.go:UpdateGCSafePoint"].
+  [].
 Proof. reflexivity. Qed.
 
 Lemma save_service_sites_ok : save_service_sites =
